@@ -71,13 +71,17 @@ impl PutqStream {
 
 impl Stream for PutqStream {
     fn reset(&mut self, args: &[&str], _out: &mut Out) {
-        // putq <kind> <n_extra_with_token> <n_extra_without> <t0>
+        // putq <kind> <n_extra_with_token> <n_extra_without> <t0> [<first transaction id>]
         verif::reset_net();
         verif::set_now_ns(args[4].parse().expect("t0"));
         self.case_no += 1;
         verif::prepare_bind(*self.me.ip(), 1, true);
         let cfg = Config { port: Some(self.me.port()), ..Default::default() };
         self.socket = Some(KrpcSocket::verif_new(&cfg).expect("socket"));
+        if let Some(tid) = args.get(5) {
+            // the socket's transaction id counter starts here: the put's batch straddles the u32 wrap
+            self.socket.as_mut().expect("socket").verif_set_next_tid(tid.parse().expect("tid"));
+        }
         self.mutable = args[1] == "mut";
         let nw: usize = args[2].parse().expect("n");
         let nwo: usize = args[3].parse().expect("n");
@@ -219,6 +223,17 @@ impl Stream for PutqStream {
                         }
                         out.count(if spoof { "reply-spoof-dropped" } else { "reply-late-or-duplicate-dropped" });
                         "dropped".into()
+                    }
+                    Ok(3) => {
+                        // the socket accepted the message for one of the put's own requests (every
+                        // request of this stream is the put's), but the put does not know the request
+                        if spoof || !was_live {
+                            out.violation("C09", "accepted-unexpected", format!("a reply for request {tid} was accepted although it {}", if spoof { "came from another address" } else { "was no longer outstanding" }));
+                        } else {
+                            out.violation("C08", if *what == "ok" { "ack-dropped" } else { "error-dropped" }, format!("the {} of {genuine_to} to request {tid} of this put was accepted by the socket in time, but the put does not recognise its own request and did not count it", if *what == "ok" { "acknowledgement" } else { "error reply" }));
+                        }
+                        out.count("reply-not-owned");
+                        "unowned".into()
                     }
                     Ok(k) => {
                         if spoof || !was_live {
@@ -441,6 +456,22 @@ pub fn run(out: &mut Out, seed: u64, thorough: bool, replay: Option<&str>) {
             out.run(&mut s, "adv 60000000000".into());
             out.run(&mut s, "check".into());
             out.mark_distinct(fnv(format!("spoofed{kind}{n}").as_bytes()));
+        }
+    }
+    // ---- the transaction ids of one put straddle the wrap of the 32-bit counter
+    for kind in ["imm", "mut", "ann", "sann"] {
+        for (n, back) in [(3usize, 1u64), (5, 2), (6, 5), (2, 0), (4, 4)] {
+            t0 += 1_000_000_000_000;
+            out.begin(&mut s, &format!("putq {kind} 0 0 {t0} {}", ((1u64 << 32) - back) % (1u64 << 32)));
+            out.run(&mut s, format!("start {n} 0"));
+            for i in 0..n {
+                let what = if kind == "mut" && i == 0 { "301" } else { "ok" };
+                out.run(&mut s, format!("reply {i} {what}"));
+                out.run(&mut s, "check".into());
+            }
+            out.run(&mut s, "adv 60000000000".into());
+            out.run(&mut s, "check".into());
+            out.mark_distinct(fnv(format!("wrap{kind}{n}{back}").as_bytes()));
         }
     }
     // ---- nothing to send to: no nodes, or no node carries a token
